@@ -555,12 +555,107 @@ fn shutdown_while_writing(rep: &mut Report) {
     let _ = std::fs::remove_file(&path);
 }
 
+fn daemon_thread_alive() -> bool {
+    std::fs::read_dir("/proc/self/task").map(|d| d.flatten().any(|e| std::fs::read_to_string(e.path().join("comm")).map(|c| c.trim() == "vmc-daemon").unwrap_or(false))).unwrap_or(false)
+}
+
+/// Shutdown requested through the daemon AFTER the peer has gone and the daemon thread has ended
+/// by itself, and a daemon dropped while its peer is still connected. (Sequential; the bounds
+/// only limit the failing cases.)
+fn late_request_and_drop(rep: &mut Report) {
+    use std::io::Read;
+    let req = message(SET_FEATURES, F_VERSION, &p_u64(0x3));
+    let threads_before = std::fs::read_dir("/proc/self/task").map(|d| d.count()).unwrap_or(0);
+    for cut in [0usize, 5, 12, 15] {
+        let case = json!({"check":"C16","part":"late_shutdown_request","cut":cut});
+        let be = TBackend::<VringRwLock, ()>::new(Cfg::default());
+        let mem = vm_memory::GuestMemoryAtomic::new(vm_memory::GuestMemoryMmap::<()>::new());
+        let mut daemon = VhostUserDaemon::new("vmc-daemon".into(), be.clone(), mem).unwrap();
+        let path = format!("/tmp/vmc-c16-{}-late-{cut}.sock", std::process::id());
+        let _ = std::fs::remove_file(&path);
+        let mut listener = vhost::vhost_user::Listener::new(&path, true).unwrap();
+        let s = UnixStream::connect(&path).unwrap();
+        daemon.start(&mut listener).unwrap();
+        send_with_fds(s.as_raw_fd(), &req[..cut], &[]);
+        drop(s);
+        // the daemon thread ends by itself (disconnect); wait for that, then ask for a shutdown
+        let t0 = std::time::Instant::now();
+        while daemon_thread_alive() && t0.elapsed().as_secs() < 3 {
+            std::thread::sleep(std::time::Duration::from_micros(200));
+        }
+        daemon.request_shutdown();
+        let r = daemon.wait();
+        rep.evaluations += 1;
+        rep.transitions += 1;
+        if let Err(e) = &r {
+            rep.outcome("late-shutdown:wait-err");
+            rep.violation("C16:wait-fails-after-shutdown", &format!("peer closed at byte {cut}, the daemon thread ended, then a shutdown was requested through the daemon: wait() returned Err({e:?})"), case.clone());
+        } else {
+            rep.outcome("late-shutdown:wait-ok");
+            rep.nontrivial += 1;
+        }
+        drop(listener);
+        drop(daemon);
+        for fd in be.leaked_exit_fds.lock().unwrap().drain(..) {
+            // SAFETY: see DaemonH::drop.
+            unsafe { libc::close(fd) };
+        }
+        let _ = std::fs::remove_file(&path);
+    }
+    // a daemon dropped while the peer is still connected (idle / in the middle of a header)
+    for cut in [0usize, 5] {
+        let case = json!({"check":"C16","part":"drop_with_live_peer","cut":cut});
+        let be = TBackend::<VringRwLock, ()>::new(Cfg::default());
+        let mem = vm_memory::GuestMemoryAtomic::new(vm_memory::GuestMemoryMmap::<()>::new());
+        let mut daemon = VhostUserDaemon::new("vmc-daemon".into(), be.clone(), mem).unwrap();
+        let path = format!("/tmp/vmc-c16-{}-drop-{cut}.sock", std::process::id());
+        let _ = std::fs::remove_file(&path);
+        let mut listener = vhost::vhost_user::Listener::new(&path, true).unwrap();
+        let s = UnixStream::connect(&path).unwrap();
+        daemon.start(&mut listener).unwrap();
+        send_with_fds(s.as_raw_fd(), &req[..cut], &[]);
+        drop(daemon);
+        rep.evaluations += 1;
+        rep.transitions += 1;
+        let _ = s.set_read_timeout(Some(std::time::Duration::from_secs(3)));
+        let mut b = [0u8; 16];
+        let mut s2 = &s;
+        let eof = matches!(s2.read(&mut b), Ok(0));
+        let mut after = 0;
+        for _ in 0..3000 {
+            after = std::fs::read_dir("/proc/self/task").map(|d| d.count()).unwrap_or(0);
+            if after <= threads_before {
+                break;
+            }
+            std::thread::sleep(std::time::Duration::from_millis(1));
+        }
+        if !eof {
+            rep.outcome("drop-live:no-end-of-stream");
+            rep.violation("C16:peer-does-not-see-end-of-stream", &format!("the daemon was dropped while the peer was connected ({cut} byte(s) sent): the peer does not see end-of-stream"), case.clone());
+        } else if after > threads_before {
+            rep.outcome("drop-live:threads-left");
+            rep.violation("C16:threads-left-after-drop", &format!("the daemon was dropped while the peer was connected: {threads_before} thread(s) before, {after} after"), case.clone());
+        } else {
+            rep.outcome("drop-live:clean");
+            rep.nontrivial += 1;
+        }
+        drop(s); // releases whatever is still blocked on the connection
+        drop(listener);
+        for fd in be.leaked_exit_fds.lock().unwrap().drain(..) {
+            // SAFETY: see DaemonH::drop.
+            unsafe { libc::close(fd) };
+        }
+        let _ = std::fs::remove_file(&path);
+    }
+}
+
 pub fn run(rep: &mut Report) {
     let thorough = rep.is_thorough();
     rep.exhaustive = false;
     install_panic_watch();
     close_offsets(rep);
     shutdown_while_writing(rep);
+    late_request_and_drop(rep);
     let scs = scenarios(thorough);
     let start = std::time::Instant::now();
     let total = if thorough { 2400.0 } else { 90.0 };
@@ -585,7 +680,7 @@ pub fn run(rep: &mut Report) {
     rep.extra.insert("scenarios".into(), json!(done));
     rep.extra.insert("scenarios_total".into(), json!(scs.len()));
     rep.extra.insert("per_scenario".into(), json!(per_scenario));
-    rep.rule = "E2: for 0..=3 shutdown callers x peer behaviours {idle, header only, full request, 2 and 3 fragments, close at byte 0/5/12/15/after the request (more offsets at thorough), half-close (peer stops sending, keeps reading) at byte 0/5/12, invalid header, a request that is answered (shutdown before / after the reply is written), answered request then close}: all schedules of {daemon thread, shutdown callers (a point before the call and at the socket shutdown, i.e. between flag store and socket shutdown), peer script} with at most 2 (3 at thorough) preemptions; at quiescence the explorer performs wait(), reads the peer socket and starts a second connection on the same listener; in the '+waiter' scenarios (0..=2 callers) wait() is instead called by a real thread that enters it at any point of the schedule (before or after the shutdown requests / the disconnect) and blocks in the join. Sequential part: peer close (and half-close followed by reading) at every byte offset 0..=20 of a request x {start+wait, serve()} the process's thread count after dropping all daemons, and a shutdown request while the daemon thread is blocked writing replies the peer does not read. Non-trivial = schedules that preempt a runnable thread at least once / offsets whose result mapping was verified".into();
+    rep.rule = "E2: for 0..=3 shutdown callers x peer behaviours {idle, header only, full request, 2 and 3 fragments, close at byte 0/5/12/15/after the request (more offsets at thorough), half-close (peer stops sending, keeps reading) at byte 0/5/12, invalid header, a request that is answered (shutdown before / after the reply is written), answered request then close}: all schedules of {daemon thread, shutdown callers (a point before the call and at the socket shutdown, i.e. between flag store and socket shutdown), peer script} with at most 2 (3 at thorough) preemptions; at quiescence the explorer performs wait(), reads the peer socket and starts a second connection on the same listener; in the '+waiter' scenarios (0..=2 callers) wait() is instead called by a real thread that enters it at any point of the schedule (before or after the shutdown requests / the disconnect) and blocks in the join. Sequential part: peer close (and half-close followed by reading) at every byte offset 0..=20 of a request x {start+wait, serve()} the process's thread count after dropping all daemons, a shutdown request while the daemon thread is blocked writing replies the peer does not read, a shutdown requested through the daemon after the peer has gone and the daemon thread has ended, and a daemon dropped while its peer is still connected. Non-trivial = schedules that preempt a runnable thread at least once / offsets whose result mapping was verified".into();
     rep.assumptions.push("without a waiter thread wait() is executed by the explorer once the daemon thread has exited; 'would never return' is decided when the daemon thread is disabled forever; a thread blocked in the join is recognised through /proc (futex wait)".into());
 }
 
